@@ -63,7 +63,10 @@ Section Proofs.
   Qed.
 
   Lemma eff_inv : forall tr f tr' out, eff tr f = Some (tr', out) -> exists t2, f (length tr) = (t2, out) /\ tr' = tr ++ t2.
-  Proof. intros tr f tr' out H. unfold eff in H. destruct (f (length tr)) as [t2 o]. inv H. eauto. Qed.
+  Proof.
+    intros tr f tr' out H. unfold eff in H. destruct (f (length tr)) as [t2 o].
+    destruct o as [v|x]; [inv H; eauto|]. destruct x; inv H; eauto.
+  Qed.
 
   Lemma props_value : forall (evf : trace -> expr -> option (trace * outcome)) l tr tr' v,
     eval_props_with W evf tr l = Some (tr', Val v) -> v = VObjLit.
